@@ -240,3 +240,89 @@ def ob_ts_default(ti: int, y: int, mo: int, d: int, h: int, mi: int) -> bool:
             C.datetime = old
         b = C.ctparse(text, ts=ts, timeout=0)
         return str(a.resolution) == str(b.resolution) and a.production == b.production
+
+
+# ------------------------------------------------------------------ C07: ranges at API level
+
+RH = [0, 1, 9, 12, 13, 17, 23]
+JOIN = [("{a} - {b}", 0), ("{a} to {b}", 0), ("{a} bis {b}", 0), ("{a} until {b}", 0), ("between {a} and {b}", 0), ("von {a} bis {b}", 0)]
+CTX = ["", "tomorrow ", "12.03.2021 ", "friday "]
+SEPS7 = [" ", "\t", "\n", "  "]
+INCOMPLETE = ["tomorrow 9 -", "9 to", "von 9 bis", "5.8. -"]
+
+
+def _iv_key(r):
+    if not isinstance(r, Interval):
+        return None
+    f, t = r.t_from, r.t_to
+    return (None if f is None else (f.year, f.month, f.day, f.hour, f.minute or 0), None if t is None else (t.year, t.month, t.day, t.hour, t.minute or 0))
+
+
+def range_check(h1, h2, ji, ci, si, prior, ts):
+    from datetime import timedelta
+    a, b = "%d:00" % h1, "%d:00" % h2
+    text = CTX[ci] + JOIN[ji][0].format(a=a, b=b)
+    text = text.replace(" ", SEPS7[si])
+    if prior:
+        _p(INCOMPLETE[prior - 1], ts, max_stack_depth=0)
+    if ci == 0:
+        r = _p(text, ts, latent_time=False, max_stack_depth=0)
+        e2 = h2 + 12 if (h1 > h2 and h1 <= 12 and h2 <= 12) else h2
+        want = ((None, None, None, h1, 0), (None, None, None, e2, 0))
+    else:
+        day = _p(CTX[ci].strip(), ts)
+        r = _p(text, ts, max_stack_depth=0)
+        start = datetime(day.year, day.month, day.day, h1, 0)
+        end = datetime(day.year, day.month, day.day, h2, 0)
+        if end <= start:
+            if h1 <= 12 and h2 <= 12 and h1 >= h2 and end + timedelta(hours=12) > start:
+                end += timedelta(hours=12)
+            else:
+                end += timedelta(days=1)
+        want = ((start.year, start.month, start.day, start.hour, 0), (end.year, end.month, end.day, end.hour, 0))
+    got = _iv_key(r)
+    if got != want:
+        return False, "%r at %s -> %s, expected %r" % (text, ts.isoformat(), r, want)
+    return True, ""
+
+
+def ob_ranges(i1: int, i2: int, ji: int, ci: int, si: int, prior: int) -> bool:
+    """
+    pre: 0 <= i1 < 7 and 0 <= i2 < 7 and 0 <= ji < 6 and 0 <= ci < 4 and 0 <= si < 4 and 0 <= prior <= 4
+    pre: (si == 0 and prior == 0) or (i1 == 2 and i2 == 5)
+    post: _
+    """
+    with NoTracing():
+        return range_check(RH[_pick(i1, 7)], RH[_pick(i2, 7)], _pick(ji, 6), _pick(ci, 4), _pick(si, 4), _pick(prior, 5), TSS[0])[0]
+
+
+def why_ranges(i1, i2, ji, ci, si, prior):
+    return range_check(RH[i1], RH[i2], ji, ci, si, prior, TSS[0])[1]
+
+
+OPEN_FORMS = [("before {x}", "to"), ("until {x}", "to"), ("bis {x}", "to"), ("not before {x}", "from"), ("nicht vor {x}", "from"),
+              ("after {x}", "from"), ("from {x}", "from"), ("ab {x}", "from"), ("not after {x}", "to"), ("nicht nach {x}", "to")]
+
+
+def open_check(fi, h, si, ts):
+    form, side = OPEN_FORMS[fi]
+    text = form.format(x="%d:30" % h).replace(" ", SEPS7[si])
+    r = _p(text, ts, latent_time=False, max_stack_depth=0)
+    k = _iv_key(r)
+    want = ((None, None, None, h, 30), None) if side == "from" else (None, (None, None, None, h, 30))
+    if k != want:
+        return False, "%r -> %s, expected a half-open interval bounded on the %r side at %d:30" % (text, r, side, h)
+    return True, ""
+
+
+def ob_open(fi: int, hi: int, si: int) -> bool:
+    """
+    pre: 0 <= fi < 10 and 0 <= hi < 7 and 0 <= si < 4
+    post: _
+    """
+    with NoTracing():
+        return open_check(_pick(fi, 10), RH[_pick(hi, 7)], _pick(si, 4), TSS[0])[0]
+
+
+def why_open(fi, hi, si):
+    return open_check(fi, RH[hi], si, TSS[0])[1]
